@@ -199,6 +199,62 @@ type obs07 struct {
 	SelfEq bool      `json:"selfeq"`
 	Copy   copyFacts `json:"copy"`
 	Panic  string    `json:"panic"`
+	// Filter with the stock functions (conformance to NodeHeapOps!FilterM; not one of the listed properties)
+	Filters []filterObs `json:"filters"`
+}
+
+type filterSpec struct {
+	K    string   `json:"k"` // white | black | official | emptydeath
+	Tags []string `json:"tags"`
+}
+
+type filterObs struct {
+	F      filterSpec `json:"f"`
+	Res    []PNode    `json:"res"`    // empty when the root was dropped
+	Shared int        `json:"shared"` // nodes of the result that are nodes of the input
+	Pure   bool       `json:"pure"`   // input untouched
+	Panic  string     `json:"panic"`
+}
+
+func runFilters(a ANode) []filterObs {
+	specs := []filterSpec{{"black", []string{"NOTE"}}, {"black", []string{"DATE", "PLAC", "_X"}}, {"white", []string{a.T, "BIRT", "DATE", "NAME", "RESI", "EVEN", "SEX"}},
+		{"white", []string{"NOTE"}}, {"official", []string{}}, {"emptydeath", []string{}}}
+	out := []filterObs{}
+	for _, sp := range specs {
+		o := filterObs{F: sp, Res: []PNode{}}
+		o.Panic = safely(func() {
+			src := build(a)
+			before := snap(src)
+			ids := map[gedcom.Node]label{}
+			index(ids, src, "L", nil)
+			tab := map[string]json.RawMessage{}
+			xtable(tab, a)
+			tags := []gedcom.Tag{}
+			for _, t := range sp.Tags {
+				tags = append(tags, gedcom.TagFromString(t))
+			}
+			var fn gedcom.FilterFunction
+			switch sp.K {
+			case "black":
+				fn = gedcom.BlacklistTagFilter(tags...)
+			case "white":
+				fn = gedcom.WhitelistTagFilter(tags...)
+			case "official":
+				fn = gedcom.OfficialTagFilter()
+			default:
+				fn = gedcom.RemoveEmptyDeathTagFilter()
+			}
+			res := gedcom.Filter(src, gedcom.NewDocument(), fn)
+			o.Pure = before.same(snap(src))
+			if !gedcom.IsNil(res) {
+				pr := project(res, ids, tab)
+				o.Res = []PNode{pr}
+				o.Shared = countShared(o.Res)
+			}
+		})
+		out = append(out, o)
+	}
+	return out
 }
 
 func mutateEverywhere(root gedcom.Node) {
@@ -292,6 +348,7 @@ func exec07(c Case) interface{} {
 		mutateEverywhere(src)
 		o.Copy.Indep2 = cp3snap.same(snap(cp3)) && cp3.GEDCOMString(0) == cp2text
 	})
+	o.Filters = runFilters(a)
 	return o
 }
 
